@@ -358,11 +358,24 @@ def run_property(mod, ctx, replay_case=None):
 
     # 0. regenerated tables (translator), if any
     table_info = None
+    translator_error = None
     if hasattr(mod, "regenerate_tables"):
-        table_info = mod.regenerate_tables(ctx)
+        try:
+            table_info = mod.regenerate_tables(ctx)
+        except Exception as e:     # fail-closed: a table / function the translator cannot read is a broken obligation
+            import traceback
+            translator_error = "%s: %s" % (type(e).__name__, e)
+            table_info = {"obligations": 1, "discharged": 0, "error": translator_error,
+                          "trace": traceback.format_exc()[-1500:]}
 
     # 1. proof status
     proofs = check_proofs(pid)
+    if translator_error:
+        proofs["ok"] = False
+        proofs["failed"] = ["translator: " + translator_error] + list(proofs.get("failed", []))
+        proofs["discharged"] = 0
+    elif table_info and table_info.get("untranslatable"):
+        proofs["failed"] = ["translator: " + u for u in table_info["untranslatable"]] + list(proofs.get("failed", []))
     proof_broken = not proofs["ok"]
 
     # 1b. thorough tier: independent re-check of the compiled theory with coqchk (axioms listed)
